@@ -133,6 +133,14 @@ def observables(sim, v):
                      for s, f in sim._srcfreq}
     jv = np.array(sim.jvec(v))
     out['jvec'] = {'all': bits(jv)}
+    # a second forward run on the same object (what an inversion loop does
+    # after every gradient)
+    sim.clean('computed')
+    sim.compute()
+    out['efield_second_run'] = {
+        (s, f): bits(sim._dict_get('efield', s, f).field)
+        for s, f in sim._srcfreq}
+    out['synthetic_second_run'] = {'all': bits(sim.data.synthetic.data)}
     return out
 
 
@@ -191,6 +199,9 @@ def run_config(rec, seed, k, i, tier):
     # name.  Both are legal and end up in the names of the exchanged files.
     named = bool(r.random() < 0.5)
     base['named_frequencies'] = named
+    # back-propagation / J v with their own (relaxed) tolerance
+    tolg = gen.choice(r, [None, 1e-3, 1e-4])
+    base['tol_gradient'] = tolg
 
     def make(cfg, tmp):
         grid, model = simgen.build_model(ps)
@@ -205,6 +216,8 @@ def run_config(rec, seed, k, i, tier):
             kw.update(gridding='dict', gridding_opts=grids(sv, grid))
         if cfg['file']:
             kw['file_dir'] = tmp
+        if tolg:
+            kw['solver_opts'] = {'tol_gradient': tolg}
         return simgen.simulation(sv, model, tol=1e-7, **kw), sv
 
     orig_tqdm = mp.tqdm
@@ -251,11 +264,12 @@ def run_config(rec, seed, k, i, tier):
                                  case)
                 continue
             rec.event('worker_events', len(ev))
-            # three phases (forward, back-propagation, jvec) x ntask
-            if len(starts) != 3*ntask or len(ends) != 3*ntask:
+            # four phases (forward, back-propagation, jvec, second
+            # forward) x ntask
+            if len(starts) != 4*ntask or len(ends) != 4*ntask:
                 rec.violation('C11:task-count', f'{len(starts)} starts / '
-                              f'{len(ends)} ends for {3*ntask} tasks', case)
-            for phase in range(3):
+                              f'{len(ends)} ends for {4*ntask} tasks', case)
+            for phase in range(4):
                 st = [e for e in starts if phase*ntask <= int(e[1]) <
                       (phase+1)*ntask]
                 en = [e for e in ends if phase*ntask <= int(e[1]) <
@@ -281,7 +295,7 @@ def run_config(rec, seed, k, i, tier):
                 if differs or cfg['max_workers'] == 1:
                     rec.distinct((cfg['max_workers'], cfg['tqdm'],
                                   cfg['file'], cfg['schedule'], phase,
-                                  gridding))
+                                  gridding, tolg is not None))
                 _ = order_s
             rec.extra_set('gridding_seen', [gridding])
             rec.extra_set('pool_sizes_seen', [f"{cfg['max_workers']}:"
